@@ -88,7 +88,20 @@ func Run(g *walk.Graph, mk func() Impl, nPaths, maxLen, k int, seed int64, outPa
 			}
 			multiBatch := batchLen(g.States[e.To]) >= 2 && absx.Canon(g.States[e.To]["batch"]) != absx.Canon(g.States[e.From]["batch"])
 			multiExecs := execsLen(g.States[e.To]) >= 2 && absx.Canon(g.States[e.To]["params"]) != absx.Canon(g.States[e.From]["params"])
-			if e.OK && !seenTo[e.To] && (multiBatch || multiExecs) {
+			// ... and deposits whose hook delivers a deposit with a hook of its own (re-entrant paths are where process-wide state hides)
+			nested := false
+			if hk, ok := e.E["hook"].(absx.M); ok {
+				if ms, ok := hk["msgs"].([]any); ok {
+					for _, m := range ms {
+						if mm, ok := m.(absx.M); ok {
+							if _, has := mm["hook"]; has {
+								nested = true
+							}
+						}
+					}
+				}
+			}
+			if e.OK && !seenTo[e.To] && (multiBatch || multiExecs || nested) {
 				seenTo[e.To] = true
 				targets = append(targets, e)
 			}
